@@ -41,6 +41,41 @@ impl fmt::Display for GraphiQLVersion<'_> {
     }
 }
 
+mod filters {
+    use std::fmt::{Display, Write};
+
+    use askama::{Result, Values, filters::Safe};
+
+    /// Escapes a value for use inside a quoted JavaScript string literal that
+    /// is itself embedded in an HTML `<script>` element.
+    ///
+    /// The content of a `<script>` element is raw text: character references
+    /// are not decoded there, so HTML escaping would alter the value. Instead,
+    /// every character that could end the string literal (quotes, backslash,
+    /// line terminators) or the script element (`<`, `>`, `&`) is written as
+    /// a JavaScript escape sequence, so the script evaluates the literal to
+    /// exactly the configured string.
+    #[askama::filter_fn]
+    pub fn js_string(value: impl Display, _: &dyn Values) -> Result<Safe<String>> {
+        let value = value.to_string();
+        let mut escaped = String::with_capacity(value.len());
+        for c in value.chars() {
+            match c {
+                '\\' => escaped.push_str("\\\\"),
+                '\'' => escaped.push_str("\\'"),
+                '"' => escaped.push_str("\\\""),
+                '\n' => escaped.push_str("\\n"),
+                '\r' => escaped.push_str("\\r"),
+                c if c.is_control() || matches!(c, '<' | '>' | '&' | '\u{2028}' | '\u{2029}') => {
+                    write!(escaped, "\\u{:04X}", c as u32)?
+                }
+                c => escaped.push(c),
+            }
+        }
+        Ok(Safe(escaped))
+    }
+}
+
 /// A builder for constructing a GraphiQL (v2) HTML page.
 ///
 /// # Example
